@@ -76,9 +76,15 @@ instance (r : Ring) (x : Nat) : Decidable (Valid r x) :=
 def remWordS (r : Ring) (x : Nat) : Nat :=
   if r.k = 0 then x % r.M else (x * 2 ^ r.k) % r.M
 
-/-- `ConstSingleDivisor::rem_dword`: two 2-by-1 steps on the three words of `dword << shift` -/
+/-- `ConstSingleDivisor::rem_dword`: shift = 0: reduce the high word with `div_rem_1by1` (a
+    compare-and-subtract), then one 2-by-1 step; otherwise two 2-by-1 steps on the three words of
+    `dword << shift` -/
 def remDwordS (W : Nat) (r : Ring) (x : Nat) : Nat :=
-  if r.k = 0 then x % r.M
+  if r.k = 0 then
+    let lo := x % 2 ^ W
+    let hi := x / 2 ^ W
+    let r1 := if hi < r.M then hi else hi - r.M     -- div_rem_1by1
+    (lo + 2 ^ W * r1) % r.M
   else
     let s := x * 2 ^ r.k                      -- shl_dword → (n0, n1, n2)
     let n0 := s % 2 ^ W
